@@ -153,6 +153,15 @@ func VerifC15PostGet(h *verifh.H) {
 	hub := VerifNewHub(h)
 	ds, err := hub.Dsm.CreateDataset("d", nil)
 	h.Assert(err == nil, "create")
+	// the payload's prefix is a local name: one that the hub does not know, one that the hub
+	// itself uses for another namespace (ns1), or the default prefix "_" (bare names)
+	pfx := []string{"ex", "ns1", "_"}[h.Choice("pfx", 3)]
+	q := func(local string) string {
+		if pfx == "_" {
+			return local
+		}
+		return pfx + ":" + local
+	}
 	np := h.Choice("nprops", 3)
 	nr := h.Choice("nrefs", 3)
 	var pv, rv []string
@@ -163,7 +172,7 @@ func VerifC15PostGet(h *verifh.H) {
 		if k > 0 {
 			props += ","
 		}
-		props += `"ex:p` + itoa(k) + `":` + f
+		props += `"` + q("p"+itoa(k)) + `":` + f
 	}
 	for k := 0; k < nr; k++ {
 		f := vPostRefs[h.Choice("rv", len(vPostRefs))]
@@ -171,10 +180,10 @@ func VerifC15PostGet(h *verifh.H) {
 		if k > 0 {
 			refs += ","
 		}
-		refs += `"ex:r` + itoa(k) + `":` + f
+		refs += `"` + q("r"+itoa(k)) + `":` + strings.ReplaceAll(f, "ex:", q(""))
 	}
 	del := h.Choice("del", 2) == 1
-	doc := `[{"id":"@context","namespaces":{"ex":"http://example.com/x/"}},{"id":"ex:e1","deleted":` + vB(del) + `,"props":{` + props + `},"refs":{` + refs + `}}]`
+	doc := `[{"id":"@context","namespaces":{"` + pfx + `":"http://example.com/x/"}},{"id":"` + q("e1") + `","deleted":` + vB(del) + `,"props":{` + props + `},"refs":{` + refs + `}}]`
 	parse := func(doc string) ([]*Entity, error) {
 		var out []*Entity
 		err := NewEntityStreamParser(hub.Store).ParseStream(strings.NewReader(doc), func(e *Entity) error {
@@ -223,7 +232,7 @@ func VerifC15PostGet(h *verifh.H) {
 		h.Assert(same, "parsing the GET body gives the same id, deleted flag, properties and references :: props="+string(p2)+" refs="+string(r2)+" body="+body)
 	}
 	// a later valid update of the entity is accepted
-	upd, err := parse(`[{"id":"@context","namespaces":{"ex":"http://example.com/x/"}},{"id":"ex:e1","props":{"ex:new":"v"},"refs":{}}]`)
+	upd, err := parse(`[{"id":"@context","namespaces":{"` + pfx + `":"http://example.com/x/"}},{"id":"` + q("e1") + `","props":{"` + q("new") + `":"v"},"refs":{}}]`)
 	h.Assert(err == nil && len(upd) == 1, "update parses")
 	if err == nil {
 		h.Assert(ds.StoreEntities(upd) == nil, "a later valid update of the entity is accepted :: after doc="+doc)
